@@ -42,6 +42,14 @@ type childCfg struct {
 	KillAtIns  int64 // j-th insert into a temporary store => SIGKILL self (0 = never)
 	ProbeFiles []string
 	WDForm     string // spelling / kind of the configured work_dir, see wdOf
+	SigMode    string // signature_validation_mode of the run ("" = verify)
+}
+
+func (c childCfg) sigMode() string {
+	if c.SigMode == "" {
+		return "verify"
+	}
+	return c.SigMode
 }
 
 // wdOf returns the work_dir as it is configured for a case directory. Every form names the same kind
@@ -108,6 +116,14 @@ func (s *killStore) InsertRevokedCert(e *crlreader.CRLEntry) error {
 	return err
 }
 
+// Update unwraps a wrapped staging store, so that the real stores see each other.
+func (s *killStore) Update(n crlstore.CRLStore) error {
+	if k, ok := n.(*killStore); ok {
+		n = k.CRLStore
+	}
+	return s.CRLStore.Update(n)
+}
+
 type killFactory struct {
 	real   crlstore.Factory
 	n      atomic.Int64
@@ -116,7 +132,9 @@ type killFactory struct {
 
 func (f *killFactory) CreateStore(id string, temp bool) (crlstore.CRLStore, error) {
 	s, err := f.real.CreateStore(id, temp)
-	if err != nil || !temp || f.killAt == 0 {
+	// every store is wrapped, the staging ones and the live one: a load path that writes to the live
+	// store directly has the same crash points
+	if err != nil || f.killAt == 0 {
 		return s, err
 	}
 	return &killStore{CRLStore: s, n: &f.n, killAt: f.killAt}, nil
@@ -143,7 +161,7 @@ func childCrash(cfgPath string) {
 			time.Sleep(time.Hour)
 		}
 	})
-	chk, err := l2.Start(l2.Opts{WorkDir: wdOf(cfg.Dir, cfg.WDForm), Storage: "disk", SigMode: "verify", Fetch: "actively", Strict: true})
+	chk, err := l2.Start(l2.Opts{WorkDir: wdOf(cfg.Dir, cfg.WDForm), Storage: "disk", SigMode: cfg.sigMode(), Fetch: "actively", Strict: true})
 	if err != nil {
 		fmt.Println("child: provision:", err)
 		os.Exit(4)
@@ -201,7 +219,7 @@ func childRestart(cfgPath string) {
 	if other, oerr := l2.Start(l2.Opts{WorkDir: otherWD, Storage: "disk", SigMode: "verify", Fetch: "actively"}); oerr == nil {
 		defer other.Stop()
 	}
-	chk, err := l2.Start(l2.Opts{WorkDir: wd, Storage: "disk", SigMode: "verify", Fetch: "actively", Strict: true})
+	chk, err := l2.Start(l2.Opts{WorkDir: wd, Storage: "disk", SigMode: cfg.sigMode(), Fetch: "actively", Strict: true})
 	if err != nil {
 		out.ProvisionErr = err.Error()
 		return
@@ -244,10 +262,11 @@ type scenario struct {
 	Accepted bool
 	N        int
 	WD       string // work_dir form
+	SigMode  string // "" = verify; "none" only for scenarios whose list is acceptable anyway
 }
 
 func (s scenario) String() string {
-	return fmt.Sprintf("%s sig=%s n=%d work_dir=%s", map[bool]string{true: "refresh", false: "first-load"}[s.Refresh], map[bool]string{true: "accepted", false: "rejected"}[s.Accepted], s.N, s.WD)
+	return fmt.Sprintf("%s sig=%s n=%d work_dir=%s sigmode=%s", map[bool]string{true: "refresh", false: "first-load"}[s.Refresh], map[bool]string{true: "accepted", false: "rejected"}[s.Accepted], s.N, s.WD, map[string]string{"": "verify"}[s.SigMode]+s.SigMode)
 }
 
 type lab struct {
@@ -319,7 +338,7 @@ func main() {
 		return
 	}
 	run := report.New("C12", "fault_enumeration")
-	run.Rule("crash run = child process (disk backend, strict CDP, healthy origin in the parent) doing a first load or a refresh, killed with SIGKILL (a) at the k-th hook hit for every k until the run completes without reaching k, (b) right after the j-th write into the staging store for j in {1,2,mid,last-1,last}, (c) thorough: at seeded instants from outside, (d) while the body of the download is arriving (the origin sends half of it, then the child is killed); restart run = fresh child on the crash image with the origin down, in which another validator with its own work_dir is provisioned first; scenarios {first load, refresh} x signature {accepted, rejected} x size, each with one of five work_dir forms (plain, name with glob characters and spaces, symbolic link to a directory, trailing slash, dot segment); oracle: verdict vector over probes {first/middle/last entry unique to old, to new, common, never} equals 'not loaded' (all denied), 'complete old' or 'complete new' (new only if the scenario's CRL is acceptable), no crl_*_tmp entry remains after Provision and work_dir holds no name that a run without crash does not leave behind, restart neither fails nor panics; non-trivial = crash pair in which the child really died at the crash point; distinct = scenario + crash point")
+	run.Rule("crash run = child process (disk backend, strict CDP, healthy origin in the parent) doing a first load or a refresh, killed with SIGKILL (a) at the k-th hook hit for every k until the run completes without reaching k, (b) right after the j-th write into the staging store for j in {1,2,mid,last-1,last}, (c) thorough: at seeded instants from outside, (d) while the body of the download is arriving (the origin sends half of it, then the child is killed); restart run = fresh child on the crash image with the origin down, in which another validator with its own work_dir is provisioned first; scenarios {first load, refresh} x signature {accepted, rejected} x size, signature mode verify (and none for two acceptable-list scenarios), each with one of five work_dir forms (plain, name with glob characters and spaces, symbolic link to a directory, trailing slash, dot segment); oracle: verdict vector over probes {first/middle/last entry unique to old, to new, common, never} equals 'not loaded' (all denied), 'complete old' or 'complete new' (new only if the scenario's CRL is acceptable), no crl_*_tmp entry remains after Provision and work_dir holds no name that a run without crash does not leave behind, restart neither fails nor panics; non-trivial = crash pair in which the child really died at the crash point; distinct = scenario + crash point")
 	run.Assume("process death only (SIGKILL): nothing is fsynced by the code and a lost page cache cannot be simulated here", "the kill happens inside the hook call, i.e. between the statements around the hook site")
 	scratch, _ := report.Scratch("C12")
 	bin := os.Getenv("VERIF_ENGINE_BIN")
@@ -338,7 +357,11 @@ func main() {
 	for _, n := range sizes {
 		for _, refresh := range []bool{false, true} {
 			for _, acc := range []bool{true, false} {
-				scns = append(scns, scenario{refresh, acc, n, wdForms[len(scns)%len(wdForms)]})
+				sm := ""
+				if acc && n == sizes[1] {
+					sm = "none" // no signature check at all: the crash windows of this mode's own load path
+				}
+				scns = append(scns, scenario{refresh, acc, n, wdForms[len(scns)%len(wdForms)], sm})
 			}
 		}
 	}
@@ -396,7 +419,7 @@ func (l *lab) runScenario(si int, sc scenario, rng *rand.Rand) {
 	if sc.Refresh {
 		// base image: old list loaded by a run that exits cleanly
 		l.org.Set(path, origin.Good(oldDoc))
-		exit, sig := l.runChild("child-crash", childCfg{Dir: base, URL: url, WDForm: sc.WD}, 120*time.Second)
+		exit, sig := l.runChild("child-crash", childCfg{Dir: base, URL: url, WDForm: sc.WD, SigMode: sc.SigMode}, 120*time.Second)
 		if exit != 0 || sig {
 			run.Inconclusive(fmt.Sprintf("%s: base image could not be created (exit %d)", sc, exit))
 			return
@@ -445,7 +468,7 @@ func (l *lab) runScenario(si int, sc scenario, rng *rand.Rand) {
 		run.Eval(1)
 		// restart with the origin down
 		l.org.Set(path, origin.Status(500, []byte("down")))
-		exit, sig := l.runChild("child-restart", childCfg{Dir: cdir, URL: url, WDForm: sc.WD}, 120*time.Second)
+		exit, sig := l.runChild("child-restart", childCfg{Dir: cdir, URL: url, WDForm: sc.WD, SigMode: sc.SigMode}, 120*time.Second)
 		desc := fmt.Sprintf("%s crash-point=%s", sc, point)
 		var ro restartOut
 		rb, err := os.ReadFile(filepath.Join(cdir, "restart.json"))
@@ -520,7 +543,7 @@ func (l *lab) runScenario(si int, sc scenario, rng *rand.Rand) {
 	for k := int64(1); k < 400; k++ {
 		cdir := newCase()
 		serve()
-		exit, sig := l.runChild("child-crash", childCfg{Dir: cdir, URL: url, Refresh: sc.Refresh, KillAtHit: k, WDForm: sc.WD}, 180*time.Second)
+		exit, sig := l.runChild("child-crash", childCfg{Dir: cdir, URL: url, Refresh: sc.Refresh, KillAtHit: k, WDForm: sc.WD, SigMode: sc.SigMode}, 180*time.Second)
 		hb, _ := os.ReadFile(filepath.Join(cdir, "hits.log"))
 		lines := strings.Split(strings.TrimSpace(string(hb)), "\n")
 		last := ""
@@ -550,7 +573,7 @@ func (l *lab) runScenario(si int, sc scenario, rng *rand.Rand) {
 	for _, j := range js {
 		cdir := newCase()
 		serve()
-		_, sig := l.runChild("child-crash", childCfg{Dir: cdir, URL: url, Refresh: sc.Refresh, KillAtIns: j, WDForm: sc.WD}, 180*time.Second)
+		_, sig := l.runChild("child-crash", childCfg{Dir: cdir, URL: url, Refresh: sc.Refresh, KillAtIns: j, WDForm: sc.WD, SigMode: sc.SigMode}, 180*time.Second)
 		evaluate(fmt.Sprintf("staged-write#%d-of-%d", j, totalInserts), cdir, sig)
 		_ = os.RemoveAll(cdir)
 	}
@@ -559,7 +582,7 @@ func (l *lab) runScenario(si int, sc scenario, rng *rand.Rand) {
 		for i := 0; i < 50; i++ {
 			cdir := newCase()
 			serve()
-			cb, _ := json.Marshal(childCfg{Dir: cdir, URL: url, Refresh: sc.Refresh, WDForm: sc.WD})
+			cb, _ := json.Marshal(childCfg{Dir: cdir, URL: url, Refresh: sc.Refresh, WDForm: sc.WD, SigMode: sc.SigMode})
 			cp := filepath.Join(cdir, "child-crash.cfg.json")
 			_ = os.WriteFile(cp, cb, 0644)
 			cmd := exec.Command(l.bin, "child-crash", cp)
@@ -575,7 +598,7 @@ func (l *lab) runScenario(si int, sc scenario, rng *rand.Rand) {
 	// (d) while the body of the download is arriving: the origin sends the first half, then the child is killed
 	for i := 0; i < 2; i++ {
 		cdir := newCase()
-		cb, _ := json.Marshal(childCfg{Dir: cdir, URL: url, Refresh: sc.Refresh, WDForm: sc.WD})
+		cb, _ := json.Marshal(childCfg{Dir: cdir, URL: url, Refresh: sc.Refresh, WDForm: sc.WD, SigMode: sc.SigMode})
 		cp := filepath.Join(cdir, "child-crash.cfg.json")
 		_ = os.WriteFile(cp, cb, 0644)
 		cmd := exec.Command(l.bin, "child-crash", cp)
